@@ -175,7 +175,10 @@ def do_calib(p):
     from pyxel.calibration import Algorithm, DaskBFE, DaskIsland
     from pyxel.calibration.archipelago_datatree import ArchipelagoDataTree
 
-    prob, proc, readout, rows, cols = _problem(p, tag="c")
+    try:
+        prob, proc, readout, rows, cols = _problem(p, tag="c")
+    except Exception as ex:  # noqa: BLE001
+        return {"o": "ctor", "cls": type(ex).__name__, "msg": str(ex)[:160]}
     pg.set_global_rng_seed(seed=p["seed"])
     algo = Algorithm(type="sade", generations=p["generations"], population_size=p["pop"])
     arch = ArchipelagoDataTree(num_islands=p["islands"], udi=DaskIsland(), algorithm=algo, problem=prob,
